@@ -463,6 +463,14 @@ fn case_acl_parse(o: &mut Out, s: &str) {
     let case = format!("CAclParse {} {} {}", coq_str(s), coq_opt(res.as_ref().map(|a| a.coq())), coq_bool(pk));
     o.push("acl_parse", case, format!("acl-parse {:?} -> {}", s, match (&res, pk) { (Some(a), _) => format!("Ok({} entries)", a.entries.len()), (_, true) => "PANIC".into(), _ => "Err".into() }), !s.is_empty());
 }
+fn case_acl_text(o: &mut Out, a: &Acl) {
+    let s = a.text();
+    let r = catch(AssertUnwindSafe(|| AclPolicy::parse(&s)));
+    let (res, pk) = match &r { None => (None, true), Some(Ok(a)) => (Some(Acl::of(a)), false), Some(Err(_)) => (None, false) };
+    o.sum.count(if res.is_some() { "acl_text.ok" } else if pk { "acl_text.panic" } else { "acl_text.err" });
+    let case = format!("CAclText {} {} {} {}", a.coq(), coq_str(&s), coq_opt(res.as_ref().map(|a| a.coq())), coq_bool(pk));
+    o.push("acl_text", case, format!("acl-text {:?} -> {}", s, match (&res, pk) { (Some(a), _) => format!("Ok({} entries)", a.entries.len()), (_, true) => "PANIC".into(), _ => "Err".into() }), true);
+}
 fn case_pred_str(o: &mut Out, s: &str) {
     let r = catch(AssertUnwindSafe(|| HopPredicate::from_str(s)));
     let (res, pk) = match &r { None => (None, true), Some(Ok(p)) => (Some(Pred::of(p)), false), Some(Err(_)) => (None, false) };
@@ -555,6 +563,16 @@ fn main() {
               "- 1 + 0 -", "+ 0", "* 1 +", "- 1 x", "-1 +", "+ 1-ff00:0:110 -", "- 1 + 2 - 3 + 4 -", "- 0 + 1", "- 1 - 0-0#0,1 +"] {
         case_acl_parse(&mut o, s);
     }
+    // ACL texts around the "wildcard predicate must be last" rule: partially wild predicates
+    for isd in [0u16, 1] { for asn in [None, Some(0u64), Some(7)] {
+        for ifs in [Ifs::Any, Ifs::Either(0), Ifs::Either(1), Ifs::Both(0, 0), Ifs::Both(0, 1), Ifs::Both(1, 0), Ifs::Both(2, 3)] {
+            if asn.is_none() && ifs != Ifs::Any { continue; }
+            let p = Pred { isd, asn, ifs };
+            for op in [true, false] {
+                case_acl_text(&mut o, &Acl { entries: vec![(false, Pred { isd: 1, asn: None, ifs: Ifs::Any }), (op, p)], default_allow: !op });
+                case_acl_text(&mut o, &Acl { entries: vec![(op, p), (true, Pred { isd: 2, asn: Some(A2), ifs: Ifs::Any })], default_allow: op });
+            }
+        } } }
     case_hops(&mut o, None);
     case_hops(&mut o, Some(None));
     case_hops(&mut o, Some(Some(vec![])));
@@ -640,7 +658,7 @@ fn main() {
         case_acl(&mut o, &a, &hs);
         if i % 3 == 0 { case_policy(&mut o, if r.chance(3, 4) { Some(&a) } else { None }, if r.chance(3, 4) { Some(&s) } else { None }, &hs); }
         let at = a.text();
-        case_acl_parse(&mut o, &at);
+        case_acl_text(&mut o, &a);
         case_acl_parse(&mut o, &mutate(r, &at, &['+', '-', ' ', '\t', '0', '1', '#', ',', ':', 'f', '\u{a0}', 'x']));
         let p = rand_pred(r);
         case_pred_print(&mut o, &p);
